@@ -37,3 +37,6 @@ pub(crate) fn hook(kind: u8, addr: usize, size: usize) {
         hook(kind, addr, size, Location::caller());
     }
 }
+
+/// The private row search of the bitfield (`first_zeros_aligned`), compiled as used by the allocator.
+pub use crate::bitfield::verif_first_zeros_aligned as first_zeros_aligned;
